@@ -13,6 +13,7 @@
 -/
 import NetflowModel.Lemmas.A6IpfixFindings
 import NetflowModel.Generated
+import NetflowModel.Lemmas.G1Arms
 namespace Netflow.Props
 open Netflow Spec
 
@@ -419,5 +420,11 @@ theorem C05_zeroSizeRecord_fails :
   by_cases h : id = 256
   · subst h; rfl
   · simp [amLookup, absIp, h]
+
+/-- **C05.G** (regenerated on every run) the value decoder of the model IS the interpretation (`Arms.lean`) of the arms of
+    `FieldValue::from_field_type` as `tools/translate.py` reads them from data_number.rs now: which reader, which constructor and which duration unit each library type uses. -/
+theorem C05_value_arms_generated (c : ValueCfg) (ty : FType) (len : Nat) (i : Bytes) :
+    parseValue c ty len i = parseValueBy Generated.valueArms c ty len i :=
+  G1.parseValue_eq_generated c ty len i
 
 end Netflow.Props
